@@ -7,7 +7,7 @@ CONSTANTS NSample, NRobust
 VARIABLE c
 
 BlockSets == {{}} \cup {{b} : b \in Blocks} \cup {Blocks}
-ParamSets == {{}} \cup {{k} : k \in ParamKinds \ {"path_int"}} \cup {{"q_string", "q_int_bounds", "header_str_len", "body_model"}, {"q_strings_items", "form_bool", "q_required"}}
+ParamSets == {{}} \cup {{k} : k \in ParamKinds \ {"path_int"}} \cup {{"q_string", "q_int_bounds", "header_str_len", "body_model"}, {"q_strings_items", "form_bool", "q_required"}, {"q_ptr_items", "q_strings_items"}}
 WithPath(p, ks) == IF p = "/pets/{id}" THEN ks \cup {"path_int"} ELSE ks
 OpsAll == {Op(m, p, tg, "op" \o m, rs, bl, WithPath(p, pk), sp) :
              m \in Methods, p \in PathsM, tg \in TagSets, rs \in RespMaps, bl \in BlockSets, pk \in ParamSets, sp \in Spellings}
